@@ -20,16 +20,20 @@ inductive EStep : St → St → Prop
   /-- push an instruction that writes no register, declares nothing, sets no label; a value record
   it uses is visible -/
   | emit (s : St) (i : Instr) (hw : i.writes = none) (hd : i.declares = none) (hl : i.setsLabel = none)
-      (hu : ∀ v, i.usesValue = some v → ∃ n, s.lookupValue n = some v) (hr : i.isRet = false) : EStep s (s.push i)
+      (hu : ∀ v, i.usesValue = some v → ∃ n, s.lookupValue n = some v) (hr : i.isRet = false)
+      (ht : i.targets = []) : EStep s (s.push i)
+  /-- push a conditional-branch instruction (the only expression-level instruction with jump targets) -/
+  | branch (s : St) (i : Instr) (hw : i.writes = none) (hd : i.declares = none) (hl : i.setsLabel = none)
+      (hu : i.usesValue = none) (hr : i.isRet = false) : EStep s (s.push i)
   /-- bump the counter and push an instruction that writes the new register -/
   | incEmit (s : St) (i : Instr) (hw : i.writes = some s.incReg.curReg) (hd : i.declares = none)
-      (hl : i.setsLabel = none) (hu : ∀ v, i.usesValue = some v → ∃ n, s.lookupValue n = some v) :
-      EStep s (s.incReg.push i)
+      (hl : i.setsLabel = none) (hu : ∀ v, i.usesValue = some v → ∃ n, s.lookupValue n = some v)
+      (ht : i.targets = []) : EStep s (s.incReg.push i)
   | addErr (s : St) (k : ErrKind) (v : Name) (l o : Nat) : EStep s (s.addErr k v l o)
   /-- declare a value under a fresh internal name and push its declaring instruction -/
   | declare (s : St) (n : Name) (v : Value) (i : Instr) (hi : i.declares = some v) (hw : i.writes = none)
-      (hl : i.setsLabel = none) (hu : i.usesValue = none) (hfresh : s.innerUsed v.innerName = false) :
-      EStep s (((s.insertValue n v).registerInner v.innerName).push i)
+      (hl : i.setsLabel = none) (hu : i.usesValue = none) (hfresh : s.innerUsed v.innerName = false)
+      (ht : i.targets = []) : EStep s (((s.insertValue n v).registerInner v.innerName).push i)
 
 inductive Step : St → St → Prop
   | e {s s' : St} (h : EStep s s') : Step s s'
